@@ -18,11 +18,100 @@ AB = 'scared.analysis.base'
 ALLOWED = {'convergence_traces', '_batches_processed', 'results', 'scores'}
 
 
+def d4(ctx, prog, base, bl, fc, fc_body):
+    """spacing by induction: per batch the current count is recorded; a point is taken when count - reference >= step; taking a
+    point makes the count *at that point* the new reference (so consecutive points are >= step apart and strictly increasing);
+    the final hook appends iff the bookkeeping says traces were processed since the last point."""
+    COUNT, REF, STEP = 'COUNT', 'REF', 'STEP'
+    book = None
+    # the bookkeeping attribute: the one appended with the processed count
+    apps = [c for c in ast.walk(bl.node) if isinstance(c, ast.Call) and isinstance(c.func, ast.Attribute) and c.func.attr == 'append' and self_attr(c.func.value)
+            and len(c.args) == 1 and norm(c.args[0]) == 'self.processed_traces']
+    key = f'{bl.key}::spacing'
+    if len(apps) != 1:
+        ctx.undecided('C08-D4', key, 'the per-batch record of the processed count (append of self.processed_traces) was not found', bl.where())
+        return
+    book = self_attr(apps[0].func.value)
+    pm = astutil.parents(bl.node)
+    ga = [(norm(t), pol) for t, pol in astutil.guards(apps[0], pm, bl.node)]
+    ctx.check(ga == [('self.convergence_step', True)], 'C08-D4', f'{key} record', f'the processed count is recorded under the condition {ga}, not for every batch when a convergence step is set',
+              'count recorded after every batch when a convergence step is set', bl.where(apps[0]))
+
+    def rename(e):
+        a = astutil.affine(e)
+        if a is None:
+            return None
+        out = {}
+        for k, v in a.items():
+            k2 = {f'self.{book}[-1]': COUNT, 'self.processed_traces': COUNT, f'self.{book}[0]': REF, 'self.convergence_step': STEP}.get(k, k)
+            out[k2] = out.get(k2, 0) + v
+        return {k: v for k, v in out.items() if v}
+    calls = [c for c in ast.walk(bl.node) if isinstance(c, ast.Call) and norm(c.func) == 'self._compute_convergence_traces']
+    if len(calls) != 1:
+        ctx.undecided('C08-D4', key, f'{len(calls)} emission sites in the batch hook', bl.where())
+        return
+    g = astutil.guards(calls[0], pm, bl.node)
+    cmp_ = [t for t, pol in g if pol and isinstance(t, ast.Compare) and len(t.ops) == 1]
+    if len(cmp_) != 1:
+        ctx.undecided('C08-D4', key, 'emission guard not a single comparison', bl.where(calls[0]))
+        return
+    t = cmp_[0]
+    diff = rename(ast.BinOp(t.left, ast.Sub(), t.comparators[0]))
+    want = {COUNT: 1, REF: -1, STEP: -1}
+    op = type(t.ops[0])
+    if diff is None:
+        ctx.undecided('C08-D4', f'{key} guard', f'guard `{norm(t)}` not affine in count, reference and step', bl.where(calls[0]))
+    else:
+        ok = (diff == want and op in (ast.GtE, ast.Gt)) or (diff == {k: -v for k, v in want.items()} and op in (ast.LtE, ast.Lt))
+        ctx.check(ok, 'C08-D4', f'{key} guard', f'a point is taken when `{norm(t)}`: not "processed count - count at the last point >= step"',
+                  f'point taken when `{norm(t)}` (count - reference >= step)', bl.where(calls[0]))
+    # the reset in the same branch
+    branch = next(par for par, field in astutil.enclosing(calls[0], pm, bl.node) if isinstance(par, ast.If) and par.test is t)
+    resets = [s_ for s_ in ast.walk(branch) if isinstance(s_, ast.Assign) and self_attr(s_.targets[0]) == book and isinstance(s_.targets[0], ast.Attribute)]
+    if len(resets) != 1 or not (isinstance(resets[0].value, ast.List) and len(resets[0].value.elts) == 1):
+        ctx.undecided('C08-D4', f'{key} reference', 'the reference is not reset by one assignment of a one-element list in the emission branch', bl.where(calls[0]))
+    else:
+        r = rename(resets[0].value.elts[0])
+        if r is None:
+            ctx.undecided('C08-D4', f'{key} reference', f'new reference `{norm(resets[0].value.elts[0])}` not understood', bl.where(resets[0]))
+        else:
+            ctx.check(r == {COUNT: 1}, 'C08-D4', f'{key} reference', f'after a point the reference becomes `{norm(resets[0].value.elts[0])}`, not the count at which the point was taken: the next point can come '
+                      f'less than one step later (or the spacing drifts)', 'after a point the reference is the count at that point: consecutive points are >= step apart', bl.where(resets[0]))
+    # final hook
+    ifs = [s_ for s_ in fc_body[1:] if isinstance(s_, ast.If)]
+    fkey = f'{fc.key}::last column'
+    if len(ifs) != 1 or ifs[0].orelse or not any(isinstance(c, ast.Call) and norm(c.func) == 'self._compute_convergence_traces' for c in ast.walk(ifs[0])):
+        ctx.undecided('C08-D3', fkey, 'final hook shape not recognised', fc.where())
+        return
+    test = ifs[0].test
+    reads = astutil.self_attrs_read(test)
+    if book not in reads:
+        ctx.fail('C08-D3', fkey, f'the last column is appended when `{norm(test)}`, which does not consult the record of counts since the last point (self.{book}): it cannot tell '
+                 f'whether traces were processed since the last point (missing or duplicated last column)', fc.where(ifs[0]))
+        return
+    try:
+        from .c15 import ceval, Undecidable
+        res = {}
+        for n_ in (1, 2, 3, 5):
+            env = {f'len(self.{book})': n_, 'self.convergence_step': 7}
+            res[n_] = bool(ceval(test, env))
+        off = bool(ceval(test, {f'len(self.{book})': 3, 'self.convergence_step': 0})) or bool(ceval(test, {f'len(self.{book})': 3, 'self.convergence_step': None}))
+        ctx.check(res == {1: False, 2: True, 3: True, 5: True} and not off, 'C08-D3', fkey, f'`{norm(test)}` is not "a convergence step is set and at least one batch was recorded since the last point" '
+                  f'(len = 1 right after a point): {res}', 'last column appended iff traces were processed since the last point', fc.where(ifs[0]))
+    except Exception as e:       # Undecidable
+        ctx.undecided('C08-D3', fkey, f'final condition `{norm(test)}` not evaluable: {e}', fc.where(ifs[0]))
+    # initial reference
+    inits = [s_ for f_ in base.methods.values() for s_ in ast.walk(f_.node) if isinstance(s_, ast.Assign) and self_attr(s_.targets[0]) == book and f_.name not in (bl.name,)]
+    ok = bool(inits) and all(isinstance(s_.value, ast.List) and len(s_.value.elts) == 1 and norm(s_.value.elts[0]) in ('0', 'self.processed_traces') for s_ in inits)
+    ctx.check(ok, 'C08-D4', f'{base.key}::initial reference', 'the bookkeeping does not start from [0] (no traces, no point yet)', 'bookkeeping starts at [0]', base.mod.relpath)
+
+
 def run(ctx, prog):
     ctx.rule('C08-D1', 'every _compute_convergence_traces call follows a compute_results() newer than the last process(); it appends scores[..., None] on the last axis; only the two hooks call it')
     ctx.rule('C08-D2', 'the convergence hooks store only convergence_traces, _batches_processed, results, scores')
-    ctx.rule('C08-D3', '_final_compute: super()._final_compute() first, then append iff len(_batches_processed) > 1')
-    ctx.assume('spacing of the convergence points (>= step, reset bookkeeping, batch-size derivation) is arithmetic over run-time counters and not decided')
+    ctx.rule('C08-D3', '_final_compute: super()._final_compute() first, then append iff the bookkeeping shows traces processed since the last point')
+    ctx.rule('C08-D4', 'spacing by induction: count recorded per batch; point taken when count - reference >= step; the reference becomes the count at that point; starts at [0]')
+    ctx.assume('the derivation of the batch size from convergence_step and the repeated-run remainder handling are arithmetic over run-time counters and not decided')
     base = prog.need_class(AB, 'BaseAttack')
     allc, concrete = universe.distinguisher_classes(prog)
     attacks = [c for c in universe.analysis_classes(prog, concrete) if base in prog.mro(c)]
@@ -104,15 +193,7 @@ def run(ctx, prog):
     body = [s for s in fc.node.body if not (isinstance(s, ast.Expr) and isinstance(s.value, ast.Constant))]
     first_ok = bool(body) and norm(body[0]).replace(' ', '') == 'super()._final_compute()'
     ctx.check(first_ok, 'C08-D3', f'{fc.key}::refresh first', '_final_compute does not start with super()._final_compute() (the final compute_results)', 'final results computed first', fc.where())
-    ifs = [s for s in body[1:] if isinstance(s, ast.If)]
-    cond_ok = len(ifs) == 1 and norm(ifs[0].test).replace(' ', '') in ('self.convergence_stepandlen(self._batches_processed)>1', 'len(self._batches_processed)>1andself.convergence_step') \
-        and len(ifs[0].body) == 1 and norm(ifs[0].body[0]).replace(' ', '') == 'self._compute_convergence_traces()' and not ifs[0].orelse
-    ctx.check(cond_ok, 'C08-D3', f'{fc.key}::last column', 'the last column is not appended exactly when traces were processed since the last point (convergence_step and len(_batches_processed) > 1)',
-              'last column appended iff traces remain since the last point', fc.where())
-    # bookkeeping in the batch hook: the point list is reset to the current count when a column is taken
     bl = base.methods['_batch_loop_compute']
-    txt = norm(bl.node).replace(' ', '')
-    ctx.pattern('self._batches_processed.append(self.processed_traces)' in txt and 'self._batches_processed=[self._batches_processed[-1]]' in txt, 'C08-D3', f'{bl.key}::bookkeeping',
-              'the processed-count bookkeeping (append current count; reset to [last] at each point) changed shape', 'count appended per batch, reset to [last] at each point', bl.where())
+    d4(ctx, prog, base, bl, fc, body)
     ctx.floor('convergence call events judged', n_calls, 4)
     ctx.floor('attack hook combinations', len(seen), 1)
